@@ -324,8 +324,70 @@ func corrHistory(p corrParams) func() {
 	}
 }
 
+// corrBusyResetScenario: a server-stream call on n nodes; the quorum function is blocked on the first reply
+// while the nodes' further replies fill the reply channel; then the stream of every node is reset, and only
+// then does the quorum function continue. Every node has failed: the call must complete (Incomplete), Done and
+// every watcher must be released.
+func corrBusyResetScenario(kind string, n int) func() {
+	return func() {
+		w := world.New(world.Opts{N: n, Window: 4})
+		if w.Cfg == nil {
+			return
+		}
+		w.Handle = func(h *world.HCtx) world.Reply {
+			h.Release()
+			for i := 0; i < 3; i++ {
+				if h.Send(i, 0) != nil {
+					break
+				}
+			}
+			world.Block()
+			return world.Reply{}
+		}
+		c := w.NewCall(kind)
+		c.Ctx = context.Background()
+		first := true
+		c.Verdict = func(inv *world.QFInv) {
+			if first {
+				first = false
+				w.Wait("qf")
+			}
+			inv.Level = len(c.QF) + 1
+		}
+		w.Invoke(c)
+		high := c.Corr.Watch(99)
+		mc.Quiesce() // the quorum function is busy, the reply channel full
+		for id := 1; id <= n; id++ {
+			w.FW.Reset(world.Addr(id))
+		}
+		mc.Quiesce()
+		w.Open("qf")
+		mc.Quiesce()
+		for i := 0; i < 4 && mc.FireTimers(nil) > 0; i++ {
+			mc.Quiesce()
+		}
+		name := fmt.Sprintf("corr/%s/n=%d/streams-reset-while-the-quorum-function-is-busy", kind, n)
+		key := classOf(kind) + "/reset-while-busy"
+		_, _, err := world.CorrRawGet(c.Corr)
+		if !closedNow(c.Corr.Done()) {
+			fail("C11/done", key, "%s: the connection of every node has broken (each node has failed), the call has not completed (error so far: %v)", name, err)
+		} else if !errors.Is(err, gorums.Incomplete) {
+			fail("C11/error", key, "%s: completed with %v, expected Incomplete", name, err)
+		}
+		if closedNow(c.Corr.Done()) && !closedNow(high) {
+			fail("C11/watch", key, "%s: the call is done but Watch(99) was not released", name)
+		}
+		mc.Outcome("done=%v", closedNow(c.Corr.Done()))
+	}
+}
+
 func corrInstances(tier string) []Instance {
 	var out []Instance
+	for _, kind := range []string{"CorrectableStream", "CorrectableStreamCustomReturnType"} {
+		for n := 1; n <= 2; n++ {
+			out = append(out, Instance{Name: fmt.Sprintf("corr/%s/n=%d/streams-reset-while-the-quorum-function-is-busy", kind, n), Bound: 1, Root: corrBusyResetScenario(kind, n)})
+		}
+	}
 	tables := []struct {
 		levels []int
 		dones  []int
